@@ -28,6 +28,12 @@ pub struct WirePolicy {
     pub cap: usize,
     /// largest number of bytes one write call accepts; 0 = unlimited
     pub max_write: usize,
+    /// byte counts on this wire must not influence anything: never split or
+    /// delay, and log sizes as 0.  Used for the server->client direction of
+    /// HTTP/2 connections, where HPACK-compressed `date` values make byte
+    /// counts depend on the wall clock.
+    #[serde(default)]
+    pub opaque: bool,
 }
 
 impl WirePolicy {
@@ -39,7 +45,11 @@ impl WirePolicy {
             lat_max: 0,
             cap: 1 << 22,
             max_write: 0,
+            opaque: false,
         }
+    }
+    pub fn opaque() -> WirePolicy {
+        WirePolicy { opaque: true, ..WirePolicy::whole() }
     }
     pub fn is_whole(&self) -> bool {
         self.max_seg == 0
@@ -518,14 +528,9 @@ impl Net {
                 }
                 w.recvbuf.extend(data.iter());
                 let rw = w.reader_waker.take();
+                let logged = if w.policy.opaque { 0 } else { data.len() as u64 };
                 drop(n);
-                self.world.log(
-                    Ev::SegDelivered,
-                    conn,
-                    0,
-                    data.len() as u64,
-                    u64::from(dir),
-                );
+                self.world.log(Ev::SegDelivered, conn, 0, logged, u64::from(dir));
                 if let Some(rw) = rw {
                     rw.wake();
                 }
